@@ -109,7 +109,7 @@ fn split_delim(v: &[u8], d: Option<char>) -> Vec<Vec<u8>> {
 }
 
 /// Independent reading of a value against the parser's language.
-fn value_ok(a: &ArgSpec, v: &[u8]) -> Result<(), &'static str> {
+pub fn value_ok(a: &ArgSpec, v: &[u8]) -> Result<(), &'static str> {
     let s = std::str::from_utf8(v);
     match a.action {
         Action::SetTrue | Action::SetFalse => {
@@ -134,7 +134,15 @@ fn value_ok(a: &ArgSpec, v: &[u8]) -> Result<(), &'static str> {
         _ => {}
     }
     match &a.parser {
-        ValParser::Os | ValParser::Path => Ok(()),
+        ValParser::Os => Ok(()),
+        // PathBufValueParser documents that it rejects the empty string
+        ValParser::Path => {
+            if v.is_empty() {
+                Err("bad-value")
+            } else {
+                Ok(())
+            }
+        }
         ValParser::Str | ValParser::Reject(_) => s.map(|_| ()).map_err(|_| "non-utf8"),
         ValParser::I64 { lo, hi } => match s {
             Ok(t) => {
